@@ -12,6 +12,10 @@
 (*       pressure and the highest frac-face pressure passed to the objective in [0, pressure_imax];          *)
 (*       w1_e15: largest relative change of a pressure between the table rows that get through and what the  *)
 (*       objective receives, when no smoothing or a window of one sample was requested (-1 otherwise)        *)
+(*       n_exp, cexp_q, pexp_q: rows / second-to-last cumulative production / highest pressure of the rows   *)
+(*       that the table itself says get through (harness side; decides whether the case is meaningful);     *)
+(*       excl_e15: largest relative change of anything handed to the minimiser when the readings carried by  *)
+(*       excluded rows are replaced by other values (-1 when nothing is excluded)                            *)
 EXTENDS FitPressure, TraceLib, Quant
 
 VARIABLES l
@@ -28,14 +32,17 @@ StepObjective(e) ==
                    \cup (IF e.atgen /\ e.zero_e15 > ObjTolE15 THEN {"ZeroAtGenerating"} ELSE {}))
 
 StepFitResult(e) ==
-    LET T == TauLimits(e.n)
-        meaningful == T.min < T.max /\ QLt(e.cprev_q, Q2S) /\ QLt(e.pfmax_q, Q2S)
+    LET Texp == TauLimits(e.n_exp)     \* from the rows the table itself says must get through (harness side)
+        T    == TauLimits(e.n)         \* the limits the code declared (from the rows it used)
+        meaningful == Texp.min < Texp.max /\ QLt(e.cexp_q, Q2S) /\ QLt(e.pexp_q, Q2S)
     IN  Report(e, IF ~meaningful THEN {"NotMeaningful"}
                   ELSE IF e.outcome # "ok" THEN {"Outcome"}
+                  ELSE IF e.n # e.n_exp THEN {"RowsUsed"}
                   ELSE (IF QLe(QDays(T.min), e.tq) /\ QLe(e.tq, QDays(T.max)) THEN {} ELSE {"TauLimits"})
                        \cup (IF QLe(e.cprev_q, e.mq) /\ QLe(e.mq, Q2S) THEN {} ELSE {"MLimits"})
                        \cup (IF QLe(e.pfmax_q, e.pq) /\ QLe(e.pq, Q2S) THEN {} ELSE {"PLimits"})
-                       \cup (IF e.w1_e15 > W1TolE15 THEN {"Window1Identity"} ELSE {}))
+                       \cup (IF e.w1_e15 > W1TolE15 THEN {"Window1Identity"} ELSE {})
+                       \cup (IF e.excl_e15 > W1TolE15 THEN {"ExcludedRowsIgnored"} ELSE {}))
 
 TInit == c = [none |-> TRUE] /\ l = 1
 TNext == /\ l <= Len(Trace)
